@@ -24,6 +24,7 @@ DISPATCH = [
     ("self._should_close", False),
     # queue-full / blank-line-skip / loop-progress disjuncts of HttpParser.feed_data and HttpPayloadParser.feed_data
     ("self._max_msg_queue_size", False), ("self._msg_in_flight < self._max_msg_queue_size", True), ("$D.find($S, $P) == $Q", False), ("self._lines", True),
+    ("$A == b'\\n'", False), ("$D.startswith(b'\\r\\n', $P)", False),  # lax parser: the skipped blank line is CRLF although lines are split at LF
     ("self._payload_has_more_data", True), ("start_pos < data_len", True), ("chunk", True), ("self._more_data_available", True),
 ]
 
